@@ -269,6 +269,13 @@ pub fn check_text_case(c: &TextCase) -> Result<(bool, bool), Violation> {
     kb_cat.extend(extract_keyboards(p));
     dev_cat.extend(extract_input_devices(p));
   }
+  // (no order is promised: compared as multisets)
+  let sorted_kb = |v: &KbOut| { let mut v = v.clone(); v.sort(); v };
+  let sorted_dev = |v: &DevOut| { let mut v = v.clone(); v.sort(); v };
+  let kb_whole = sorted_kb(&kb_whole);
+  let kb_cat = sorted_kb(&kb_cat);
+  let dev_whole = sorted_dev(&dev_whole);
+  let dev_cat = sorted_dev(&dev_cat);
   if kb_whole != kb_cat {
     return Err(Violation::new("classification-depends-on-neighbours", format!("--all-keyboards extractor: the list yields {:?} but its entries one by one yield {:?}", kb_whole, kb_cat)));
   }
@@ -276,7 +283,7 @@ pub fn check_text_case(c: &TextCase) -> Result<(bool, bool), Violation> {
     return Err(Violation::new("classification-depends-on-neighbours", format!("--dev-file extractor: the list yields {:?} but its entries one by one yield {:?}", dev_whole, dev_cat)));
   }
   // (2) the two extractors agree
-  let dev_kbs: KbOut = dev_whole.iter().filter(|d| d.2).map(|d| (d.0.clone(), d.1.clone())).collect();
+  let dev_kbs: KbOut = sorted_kb(&dev_whole.iter().filter(|d| d.2).map(|d| (d.0.clone(), d.1.clone())).collect());
   if dev_kbs != kb_whole {
     return Err(Violation::new("extractors-disagree", format!("--all-keyboards finds {:?}, --dev-file --only-if-keyboard would accept {:?}", kb_whole, dev_kbs)));
   }
@@ -601,7 +608,10 @@ pub fn run_e2e_case(c: &E2ECase, binary: Option<&str>) -> Result<(u32, u32), Vio
     match sel {
       None => return Err(Violation::new("binary-output-unreadable", format!("`remap --all-keyboards --verbose` printed no 'Remapping N devices' line; stderr: {}", String::from_utf8_lossy(&out.stderr)))),
       Some((n, first)) => {
-        if n != exp.selected_in_order.len() || first != exp.selected_in_order.first().cloned() {
+        // (the order in which the devices are opened is not promised: the first one printed
+        // must be one of the expected devices)
+        let first_ok = match &first { None => exp.selected_in_order.is_empty(), Some(f) => exp.selected.contains(f) };
+        if n != exp.selected_in_order.len() || !first_ok {
           return Err(Violation::new("wrong-selection-all-keyboards", format!("the binary run with --all-keyboards and excludes {:?} reports {} devices starting with {:?}, expected {:?}", c.excludes, n, first, exp.selected_in_order)));
         }
       }
@@ -621,7 +631,8 @@ pub fn run_e2e_case(c: &E2ECase, binary: Option<&str>) -> Result<(u32, u32), Vio
         Some((n, first)) => {
           // expected: the arguments that name a selected device, in argument order
           let want: Vec<&String> = args.iter().filter(|a| canon(a).map(|p| exp.selected.contains(&p)).unwrap_or(false)).collect();
-          if n != want.len() || first.as_ref() != want.first().cloned() {
+          let first_ok = match &first { None => want.is_empty(), Some(f) => want.iter().any(|w| *w == f) };
+          if n != want.len() || !first_ok {
             return Err(Violation::new("wrong-selection-dev-file", format!("the binary run with --dev-file {:?} --only-if-keyboard and excludes {:?} reports {} devices starting with {:?}, expected {:?}", args, c.excludes, n, first, want)));
           }
         }
